@@ -190,6 +190,13 @@ Definition eval_binary (out_shape lhs_shape rhs_shape : list nat) (lhs rhs out :
   else if (length lhs_shape =? length rhs_shape) && (length rhs_shape =? 2)
   then of_opt (eval_binary_2d (pair_of out_shape) (pair_of lhs_shape) (pair_of rhs_shape) lhs rhs out)
   else Refused.
+(* evaluator_t::operator()() (since fix "SIMD evaluator falls back to the default evaluator ..."): when the
+   simd path refuses, the view is evaluated by evaluator_t<view,none_t> into the same output.  [scalar] is
+   that evaluator's result (the very reference C12 compares with; its own correctness is C07/C08/C10). *)
+Definition with_fallback (scalar : list A) (o : outcome) : outcome :=
+  match o with Refused => Done scalar | _ => o end.
+Definition eval_binary_top (out_shape lhs_shape rhs_shape : list nat) (lhs rhs out scalar : list A) : outcome :=
+  with_fallback scalar (eval_binary out_shape lhs_shape rhs_shape lhs rhs out).
 
 (* ------------------------------------------------------------------ eval_outer (ufunc.hpp:94-169) *)
 (* index/ufunc.hpp:300-327 outer_simd_shape; out_shape = lhs_shape ++ rhs_shape *)
@@ -355,15 +362,23 @@ Definition eval_reduce_axis (inp_shape out_shape_k : list nat) (axis : bool * na
   | HORIZONTAL => option_map fst (run_hsteps inp (red_entries k out2 inp2) (out, set1 ident))
   end.
 
+(* apply_initial (since fix "SIMD reduction honours the view's initial value"): op(initial, x) folded into
+   every finished result element *)
+Definition apply_initial (init : option A) (x : A) : A :=
+  match init with Some i => f i x | None => x end.
+
 (* eval_reduction: out_size == 1 takes the full arm whatever the axis *)
-Definition eval_reduction (inp_shape out_shape_k : list nat) (axis : option (bool * nat)) (inp : list A) : outcome :=
+Definition eval_reduction (inp_shape out_shape_k : list nat) (axis : option (bool * nat)) (init : option A) (inp : list A) : outcome :=
   let out_size := prodn out_shape_k in
   if out_size =? 1 then
-    match eval_reduce_full (length inp) inp with Some r => Done [r] | None => Undefined end
+    match eval_reduce_full (length inp) inp with Some r => Done [apply_initial init r] | None => Undefined end
   else match axis with
-       | Some ax => of_opt (eval_reduce_axis inp_shape out_shape_k ax inp out_size)
+       | Some ax => of_opt (option_map (map (apply_initial init)) (eval_reduce_axis inp_shape out_shape_k ax inp out_size))
        | None => Refused
        end.
+Definition eval_reduction_top (inp_shape out_shape_k : list nat) (axis : option (bool * nat)) (init : option A)
+                              (inp scalar : list A) : outcome :=
+  with_fallback scalar (eval_reduction inp_shape out_shape_k axis init inp).
 
 End Binary.
 
